@@ -22,6 +22,12 @@ type LocalStore struct {
 	workdir  string
 	manifest *manifest.Manager
 	stateMu  sync.Mutex
+	// Highest allocator counters persisted (or loaded) so far, guarded by stateMu.
+	// Saves arrive from concurrent requests outside any common lock, so a delayed
+	// save may carry older counters than one already on disk; the checkpoint must
+	// never move backwards or a restart would hand out values again.
+	savedID uint64
+	savedTS uint64
 }
 
 // OpenLocalStore opens a file-backed PD storage in workdir.
@@ -60,6 +66,14 @@ func (s *LocalStore) Load() (Snapshot, error) {
 	if err != nil {
 		return Snapshot{}, err
 	}
+	s.stateMu.Lock()
+	if state.IDCurrent > s.savedID {
+		s.savedID = state.IDCurrent
+	}
+	if state.TSCurrent > s.savedTS {
+		s.savedTS = state.TSCurrent
+	}
+	s.stateMu.Unlock()
 	out.Allocator = state
 	return out, nil
 }
@@ -88,6 +102,12 @@ func (s *LocalStore) SaveAllocatorState(idCurrent, tsCurrent uint64) error {
 	s.stateMu.Lock()
 	defer s.stateMu.Unlock()
 
+	if idCurrent < s.savedID {
+		idCurrent = s.savedID
+	}
+	if tsCurrent < s.savedTS {
+		tsCurrent = s.savedTS
+	}
 	payload, err := json.Marshal(AllocatorState{
 		IDCurrent: idCurrent,
 		TSCurrent: tsCurrent,
@@ -101,7 +121,11 @@ func (s *LocalStore) SaveAllocatorState(idCurrent, tsCurrent uint64) error {
 	if err := s.fs.WriteFile(tmp, payload, 0o644); err != nil {
 		return err
 	}
-	return s.fs.Rename(tmp, path)
+	if err := s.fs.Rename(tmp, path); err != nil {
+		return err
+	}
+	s.savedID, s.savedTS = idCurrent, tsCurrent
+	return nil
 }
 
 // Close closes the underlying manifest manager.
